@@ -140,13 +140,14 @@ def unpadOpenssh (d : Bytes) : M Bytes :=
 /-! ## `PKey._read_private_key_openssh` (RSAKey / ECDSAKey) -/
 
 /-- the kdf / cipher dispatch and decryption of the private section -/
-def osshDecrypt (P : Prims) (cipher kdfname kdfopts blob : Bytes) (pw : Option Bytes) : M Bytes :=
+def osshDecrypt (legacy : Bool) (P : Prims) (cipher kdfname kdfopts blob : Bytes) (pw : Option Bytes) : M Bytes :=
   if kdfname = nBcrypt then
     let mode : M Mode :=
       if cipher = nAes256Cbc then .ok .cbc
       else if cipher = nAes256Ctr then .ok .ctr
-      -- "unknown cipher `{}`".format(cipher.decode("utf-8"))
-      else if utf8Valid cipher then .error .sshException else .error .unicodeDecodeError
+      -- raise SSHException("unknown cipher `{}` …".format(cipher.decode("utf-8", "replace")));
+      -- before the fix the name was decoded strictly and `UnicodeDecodeError` escaped (`legacy`)
+      else if legacy ∧ ¬ utf8Valid cipher then .error .unicodeDecodeError else .error .sshException
     match mode with
     | .error e => .error e
     | .ok mode =>
@@ -167,7 +168,7 @@ def osshDecrypt (P : Prims) (cipher kdfname kdfopts blob : Bytes) (pw : Option B
   else if cipher = nNone ∧ kdfname = nNone then .ok blob
   else .error .sshException
 
-def readOpenssh (P : Prims) (data : Bytes) (pw : Option Bytes) : M Bytes :=
+def readOpenssh (legacy : Bool) (P : Prims) (data : Bytes) (pw : Option Bytes) : M Bytes :=
   if data.take 15 ≠ magic then .error .sshException else
   let d := data.drop 15
   match cStr d 0 with
@@ -190,7 +191,7 @@ def readOpenssh (P : Prims) (data : Bytes) (pw : Option Bytes) : M Bytes :=
   match cStr rem j1 with
   | .error e => .error e
   | .ok (blob, _) =>
-  match osshDecrypt P cipher kdfname kdfopts blob pw with
+  match osshDecrypt legacy P cipher kdfname kdfopts blob pw with
   | .error e => .error e
   | .ok dec =>
   match cU32 dec 0 with
@@ -247,8 +248,8 @@ inductive Kind | rsa | ec | ed
   deriving Repr, DecidableEq
 
 /-- an OpenSSH-format file read by `RSAKey` / `ECDSAKey` -/
-def loadOpenssh (P : Prims) (k : Kind) (data : Bytes) (pw : Option Bytes) : M Unit :=
-  match readOpenssh P data pw with
+def loadOpenssh (legacy : Bool) (P : Prims) (k : Kind) (data : Bytes) (pw : Option Bytes) : M Unit :=
+  match readOpenssh legacy P data pw with
   | .error e => .error e
   | .ok kd =>
     match k with
@@ -273,6 +274,12 @@ def cipherLookup (name : Bytes) : Option (Nat × Nat × Nat × Option Mode) :=
 def getTextM (r : Rd) : M (Bytes × Rd) :=
   let (s, r') := r.getString
   if utf8Valid s then .ok (s, r') else .error .unicodeDecodeError
+
+/-- `ciphername in _cipher_info` (before the fix) / `… and "mode" in _cipher_info[ciphername]` -/
+def cipherUsable (legacy : Bool) (name : Bytes) : Bool :=
+  match cipherLookup name with
+  | none => false
+  | some (_, _, _, mode) => legacy || mode.isSome
 
 /-- first loop: the public keys -/
 def edPublics : Nat → Rd → List Bytes → M (List Bytes × Rd)
@@ -332,7 +339,7 @@ def edPlain (P : Prims) (cipher ct salt : Bytes) (rounds : Nat) (pw : Option Byt
         | some md => P.decrypt alg md (key.take ks) (key.drop ks) ct
 
 /-- the unencrypted header: (cipher name, salt, rounds, number of keys, public keys, private ciphertext) -/
-def edHeader (data : Bytes) (pw : Option Bytes) : M (Bytes × Bytes × Nat × Nat × List Bytes × Bytes) :=
+def edHeader (legacy : Bool) (data : Bytes) (pw : Option Bytes) : M (Bytes × Bytes × Nat × Nat × List Bytes × Bytes) :=
   let m0 : Rd := { content := data, pos := 0 }
   let (mg, m1) := m0.getBytes 15
   if mg ≠ magic then .error .sshException else
@@ -347,7 +354,8 @@ def edHeader (data : Bytes) (pw : Option Bytes) : M (Bytes × Bytes × Nat × Na
   match edKdfPart cipher kdfname kdfopts pw with
   | .error e => .error e
   | .ok (salt, rounds) =>
-  if cipher ≠ nNone ∧ (cipherLookup cipher).isNone then .error .sshException else
+  -- unknown ciphers and (since the fix) the AEAD entries, which have no "mode", are refused
+  if cipher ≠ nNone ∧ ¬ cipherUsable legacy cipher then .error .sshException else
   match edPublics nkeys m5 [] with
   | .error e => .error e
   | .ok (pubs, m6) => .ok (cipher, salt, rounds, nkeys, pubs, (m6.getString).1)
@@ -368,8 +376,8 @@ def edBody (P : Prims) (pd : Bytes) (nkeys : Nat) (pubs : List Bytes) : M (Bytes
     | [k] => .ok k
     | _ => .error .sshException
 
-def edParse (P : Prims) (data : Bytes) (pw : Option Bytes) : M (Bytes × Bytes) :=
-  match edHeader data pw with
+def edParse (legacy : Bool) (P : Prims) (data : Bytes) (pw : Option Bytes) : M (Bytes × Bytes) :=
+  match edHeader legacy data pw with
   | .error e => .error e
   | .ok (cipher, salt, rounds, nkeys, pubs, ct) =>
   match edPlain P cipher ct salt rounds pw with
@@ -377,8 +385,8 @@ def edParse (P : Prims) (data : Bytes) (pw : Option Bytes) : M (Bytes × Bytes) 
   | .ok pd => edBody P pd nkeys pubs
 
 /-- `Ed25519Key(file_obj=…)`: the parse wrapped in `except ValueError: raise SSHException` -/
-def loadEd (P : Prims) (data : Bytes) (pw : Option Bytes) : M (Bytes × Bytes) :=
-  catchValueError (edParse P data pw)
+def loadEd (legacy : Bool) (P : Prims) (data : Bytes) (pw : Option Bytes) : M (Bytes × Bytes) :=
+  catchValueError (edParse legacy P data pw)
 
 /-! ## `_read_private_key_pem` from the parsed headers on, and the DER branch of `_decode_key` -/
 
